@@ -7,6 +7,7 @@ let runners : (string * (string -> string list -> string list list -> (string ->
   ("C18", Drv_c18.run);
   ("C10", Drv_c10.run);
   ("C02", Drv_c02.run);
+  ("C07", Drv_c07.run);
 ]
 
 (* optional third argument: the harness output for the same cases (for models that need
